@@ -8,7 +8,9 @@ with `end` in {"return", "raise", "fall"} and `end_node`."""
 import ast
 from .core import AnalysisError, norm
 
+import os
 MAX_PATHS = 60000
+COMPOSITE = bool(os.environ.get("LXS_PATH_COMPOSITE"))
 
 
 class Path:
@@ -63,6 +65,40 @@ def enumerate_paths(fn, max_paths=MAX_PATHS):
                 raise AnalysisError(f"{fn.name}: more than {max_paths} paths")
         return cur, breaks, conts
 
+    def branch(test, prefixes):
+        """(prefixes on which `test` holds, prefixes on which it does not): `and` / `or` / `not` are taken apart the way Python
+        evaluates them (short circuit), `!=`, `is not`, `not in` are read as the negated `==`, `is`, `in` -- every test event is an
+        atomic condition with a polarity, however the maintainer composed them."""
+        if COMPOSITE:
+            return [p + [("test", test, True)] for p in prefixes], [p + [("test", test, False)] for p in prefixes]
+        if isinstance(test, ast.UnaryOp) and isinstance(test.op, ast.Not):
+            t, f = branch(test.operand, prefixes)
+            return f, t
+        if isinstance(test, ast.BoolOp):
+            if isinstance(test.op, ast.And):
+                cur, false = prefixes, []
+                for v in test.values:
+                    cur, f = branch(v, cur)
+                    false += f
+                return cur, false
+            cur, true = prefixes, []
+            for v in test.values:
+                t, cur = branch(v, cur)
+                true += t
+            return true, cur
+        if isinstance(test, ast.Compare) and len(test.ops) == 1 and isinstance(test.ops[0], (ast.NotEq, ast.IsNot, ast.NotIn)):
+            pos = ast.copy_location(ast.Compare(left=test.left, ops=[{ast.NotEq: ast.Eq, ast.IsNot: ast.Is, ast.NotIn: ast.In}[type(test.ops[0])]()],
+                                                comparators=test.comparators), test)
+            return [p + [("test", pos, False)] for p in prefixes], [p + [("test", pos, True)] for p in prefixes]
+        if isinstance(test, ast.Compare) and len(test.ops) > 1:
+            # a < b < c  ==  a < b and b < c
+            parts, left = [], test.left
+            for op, c in zip(test.ops, test.comparators):
+                parts.append(ast.copy_location(ast.Compare(left=left, ops=[op], comparators=[c]), test))
+                left = c
+            return branch(ast.copy_location(ast.BoolOp(op=ast.And(), values=parts), test), prefixes)
+        return [p + [("test", test, True)] for p in prefixes], [p + [("test", test, False)] for p in prefixes]
+
     def stmt(st, prefixes, loop_depth):
         if isinstance(st, ast.Return):
             for p in prefixes:
@@ -77,8 +113,7 @@ def enumerate_paths(fn, max_paths=MAX_PATHS):
         if isinstance(st, ast.Continue):
             return [], [], [p + [("stmt", st)] for p in prefixes]
         if isinstance(st, ast.If):
-            pt = [p + [("test", st.test, True)] for p in prefixes]
-            pf = [p + [("test", st.test, False)] for p in prefixes]
+            pt, pf = branch(st.test, prefixes)
             o1, b1, c1 = block(st.body, pt, loop_depth)
             o2, b2, c2 = block(st.orelse, pf, loop_depth) if st.orelse else (pf, [], [])
             return o1 + o2, b1 + b2, c1 + c2
@@ -86,11 +121,11 @@ def enumerate_paths(fn, max_paths=MAX_PATHS):
             hdr = ("stmt", st)
             if isinstance(st, ast.While):
                 # a while loop is left normally only with its test false
-                skip = [p + [hdr, ("loop", st, "skip"), ("test", st.test, False)] for p in prefixes]
-                enter = [p + [hdr, ("loop", st, "enter"), ("test", st.test, True)] for p in prefixes]
+                _, skip = branch(st.test, [p + [hdr, ("loop", st, "skip")] for p in prefixes])
+                enter, _ = branch(st.test, [p + [hdr, ("loop", st, "enter")] for p in prefixes])
                 o, b, c = block(st.body, enter, loop_depth + 1)
-                o = [p + [("test", st.test, False)] for p in o]
-                c = [p + [("test", st.test, False)] for p in c]
+                _, o = branch(st.test, o)
+                _, c = branch(st.test, c)
             else:
                 skip = [p + [hdr, ("loop", st, "skip")] for p in prefixes]
                 enter = [p + [hdr, ("loop", st, "enter")] for p in prefixes]
@@ -431,3 +466,31 @@ def stale_reads(fn, keys=None):
         if not fresh_somewhere:
             out.append((k, Lc, node, unfresh[(k, nid)].get(id(Lc)) or list(unfresh[(k, nid)].values())[0]))
     return out, len(allreads)
+
+
+# ------------------------------------------------------------------------------------------
+# spelling-independent lookup of a condition on a path
+# ------------------------------------------------------------------------------------------
+
+def canon_test(text_or_node, pol=True):
+    """(canonical text, polarity) of a condition as the path events spell it: `not` unwrapped, `!=` / `is not` / `not in` read
+    as the negated `==` / `is` / `in`, operands of commutative operators in canonical order."""
+    from .core import cnorm
+    t = ast.parse(text_or_node, mode="eval").body if isinstance(text_or_node, str) else text_or_node
+    while isinstance(t, ast.UnaryOp) and isinstance(t.op, ast.Not):
+        t, pol = t.operand, not pol
+    if isinstance(t, ast.Compare) and len(t.ops) == 1 and isinstance(t.ops[0], (ast.NotEq, ast.IsNot, ast.NotIn)):
+        t = ast.Compare(left=t.left, ops=[{ast.NotEq: ast.Eq, ast.IsNot: ast.Is, ast.NotIn: ast.In}[type(t.ops[0])]()], comparators=t.comparators)
+        pol = not pol
+    if isinstance(t, ast.Compare) and len(t.ops) == 1 and isinstance(t.ops[0], (ast.Gt, ast.GtE)):
+        t = ast.Compare(left=t.comparators[0], ops=[ast.Lt() if isinstance(t.ops[0], ast.Gt) else ast.LtE()], comparators=[t.left])
+    return cnorm(t, eqsym=True), pol
+
+
+def has_test(path, text, pol=True, upto=None, frm=0):
+    """does `path` pass the condition `text` with the given outcome (any spelling) among events [frm, upto)?"""
+    want = canon_test(text, pol)
+    for e in path.ev[frm:upto if upto is not None else len(path.ev)]:
+        if e[0] == "test" and canon_test(e[1], e[2]) == want:
+            return True
+    return False
